@@ -5,4 +5,4 @@ From Coq Require Import Extraction ExtrOcamlBasic List NArith.
 From LB Require Import Tables Framing NodeFlow Rx Link.
 Extraction "model.ml"
   tx_init tx_step wire_chunks ref_decode crc8 frame encode_msg wf_msg added
-  flow_init flow_step flow_run link_rx rx_init rx_run canon.
+  flow_init flow_step flow_run link_rx rx_init rx_run canon parse_msg deliver_packet.
